@@ -1578,6 +1578,8 @@ fn unit_agrees(w: &World, c: &RCond, r: &RouteCtx, export: bool) -> Option<bool>
 struct Ctx {
     rep: Report,
     w: World,
+    /// signature used when a CRUD content probe disagrees and no single condition is to blame
+    fallback_sig: Option<String>,
 }
 
 fn panic_sig(p: &PanicInfo) -> String {
@@ -1752,7 +1754,10 @@ fn judge(ctx: &mut Ctx, asg: &PolicyAssignment, prog: &Program, r: &RouteCtx, ta
     }
     // no single condition is to blame: the chaining itself (order, all-conditions,
     // first decision wins, accumulation of actions, default) gave another result
-    let sig = sig.unwrap_or_else(|| format!("C14/chain/{}", if what.starts_with("attrs:") { "attributes" } else { what.as_str() }));
+    let fallback = ctx.fallback_sig.clone();
+    let sig = sig
+        .or(fallback)
+        .unwrap_or_else(|| format!("C14/chain/{}", if what.starts_with("attrs:") { "attributes" } else { what.as_str() }));
     let wit = witness(ctx, prog, r, real_text(&got), outcome_text(&a), extra);
     ctx.rep.violation(&sig, &format!("policy result differs from the reference semantics ({})", what), wit);
     Verdict::Violation
@@ -2673,6 +2678,133 @@ fn body_subset(rng: &mut Rng, b: &SetBody, extra: &SetBody) -> SetBody {
     s
 }
 
+/// what a CRUD operation created or changed, to be evaluated right away
+enum Target {
+    /// kind, name, bodies named by the operation (added / removed elements)
+    Set(SetKind, String, Vec<SetBody>),
+    Stmt(String),
+    Policy(String),
+}
+
+/// routes aimed at prefix-set entries: at the ends of each entry's range, at and just
+/// past its own length, below the entry's prefix or (for /0 entries) anywhere
+fn routes_for_entries(rng: &mut Rng, w: &World, rep: &mut Report, entries: &[PfxEntry]) -> Vec<RouteCtx> {
+    let mut out = Vec::new();
+    let mut es: Vec<&PfxEntry> = entries.iter().filter(|e| e.clean()).collect();
+    rng.shuffle(&mut es);
+    for e in es.into_iter().take(5) {
+        let wd = width(e.v6) as u8;
+        let cands = [e.min.min(wd), e.max.min(wd), e.len, (e.len + 1).min(wd), ((e.min as u16 + e.max as u16) / 2).min(wd as u16) as u8];
+        for _ in 0..2 {
+            let len = *rng.pick(&cands);
+            let noise = ((rng.next_u64() as u128) << 64 | rng.next_u64() as u128) & if e.v6 { u128::MAX } else { 0xffff_ffff };
+            let tail = if e.len == 0 { noise } else if e.len >= wd { 0 } else { noise & ((1u128 << (wd as u32 - e.len as u32)) - 1) };
+            let addr = mask_to(e.addr | tail, len, e.v6);
+            let mut r = gen_route(rng, w, rep);
+            r.nlri = if e.v6 {
+                Nlri::V6(Ipv6Net { addr: Ipv6Addr::from(addr), mask: len })
+            } else {
+                Nlri::V4(Ipv4Net { addr: Ipv4Addr::from(addr as u32), mask: len })
+            };
+            r.fam = if e.v6 { Fam::V6 } else { Fam::V4 };
+            r.pfx = Some((e.v6, addr, len));
+            r.via_wire = None;
+            out.push(r);
+        }
+    }
+    out
+}
+
+/// Evaluate the entity an accepted operation touched, wrapped into a throw-away
+/// statement / policy (names zz-*) and an assignment built with `build_assignment`,
+/// against the model's content.  The throw-away entities are removed again with
+/// `delete_policy(preserve_statements=true)` + `delete_statement`.
+fn probe_entity(ctx: &mut Ctx, rng: &mut Rng, pt: &mut PolicyTable, m: &MTable, t: &Target, probes: &[RouteCtx], ops: &[String], label: &str) -> bool {
+    let mut mm = m.clone();
+    let mut made_stmt = false;
+    let mut made_pol = false;
+    let mut targeted: Vec<RouteCtx> = Vec::new();
+    let polname: String = match t {
+        Target::Set(k, n, bodies) => {
+            let Some(set) = m.sets.get(&(*k, n.clone())) else { return false };
+            if set.body.texts().is_empty() {
+                return false;
+            }
+            if let SetBody::Prefix(es) = &set.body {
+                let mut all: Vec<PfxEntry> = es.clone();
+                for b in bodies {
+                    if let SetBody::Prefix(x) = b {
+                        all.extend(x.iter().cloned());
+                    }
+                }
+                targeted = routes_for_entries(rng, &ctx.w, &mut ctx.rep, &all);
+            }
+            let st = MStmt { conds: vec![Cond::Set(*k, n.clone(), Opt::Any)], disp: Some(Disp::Reject), actions: Actions::default() };
+            if pt.add_statement("zz-s", st.conds.iter().map(|c| c.config()).collect(), Some(Disposition::Reject), Actions::default()).is_err() {
+                ctx.rep.count("crud:probe-refused");
+                return false;
+            }
+            made_stmt = true;
+            mm.stmts.insert("zz-s".into(), st);
+            if pt.add_policy("zz-p", vec!["zz-s".into()]).is_err() {
+                ctx.rep.count("crud:probe-refused");
+                let _ = pt.delete_statement("zz-s", true, vec![], None, Actions::default());
+                return false;
+            }
+            made_pol = true;
+            mm.pols.insert("zz-p".into(), vec!["zz-s".into()]);
+            "zz-p".into()
+        }
+        Target::Stmt(n) => {
+            if !m.stmts.contains_key(n) {
+                return false;
+            }
+            if pt.add_policy("zz-p", vec![n.clone()]).is_err() {
+                ctx.rep.count("crud:probe-refused");
+                return false;
+            }
+            made_pol = true;
+            mm.pols.insert("zz-p".into(), vec![n.clone()]);
+            "zz-p".into()
+        }
+        Target::Policy(n) => {
+            if !m.pols.contains_key(n) {
+                return false;
+            }
+            n.clone()
+        }
+    };
+    let mut violated = false;
+    match pt.build_assignment(None, "probe", PolicyDirection::Export, Disposition::Accept, vec![polname.clone()]) {
+        Err(_) => ctx.rep.count("crud:probe-refused"),
+        Ok(asg) => {
+            ctx.rep.count("crud:content-probes");
+            let prog = mm.resolve(true, Disp::Accept, &[polname.clone()]);
+            let mut routes: Vec<RouteCtx> = targeted;
+            routes.extend(probes.iter().take(3).cloned());
+            for _ in 0..2 {
+                routes.push(gen_route(rng, &ctx.w, &mut ctx.rep));
+            }
+            ctx.fallback_sig = Some(format!("C14/crud/{}", label));
+            for r in &routes {
+                let extra = vec![("ops", Json::strs(ops.to_vec()))];
+                if judge(ctx, &asg, &prog, r, "crud-probe", extra) == Verdict::Violation {
+                    violated = true;
+                    break;
+                }
+            }
+            ctx.fallback_sig = None;
+        }
+    }
+    if made_pol {
+        let _ = guard(|| pt.delete_policy("zz-p", true, true, vec![]));
+    }
+    if made_stmt {
+        let _ = guard(|| pt.delete_statement("zz-s", true, vec![], None, Actions::default()));
+    }
+    violated
+}
+
 fn run_crud(ctx: &mut Ctx, rng: &mut Rng, histories: u64) {
     for _ in 0..histories {
         if !ctx.rep.in_budget() {
@@ -2702,11 +2834,13 @@ fn run_crud(ctx: &mut Ctx, rng: &mut Rng, histories: u64) {
             let result: Result<(), String>;
             let mut new_global: Option<(Option<Arc<PolicyAssignment>>, Option<Arc<PolicyAssignment>>)> = None;
             let mut model_update: Option<Box<dyn FnOnce(&mut MTable)>> = None;
+            let mut target: Option<Target> = None;
+            let mut dp_preserve: Option<bool> = None;
             let desc: String;
             if roll < 18 || (roll >= 60 && roll < 72) {
                 // ---- defined sets
                 entity = "defined-set";
-                let kind = *rng.pick(&ALL_KINDS);
+                let kind = if rng.chance(1, 3) { SetKind::Prefix } else { *rng.pick(&ALL_KINDS) };
                 let name = format!("{}{}", kind.short(), rng.below(2));
                 let key = (kind, name.clone());
                 let existing = m.sets.get(&key).cloned();
@@ -2714,12 +2848,20 @@ fn run_crud(ctx: &mut Ctx, rng: &mut Rng, histories: u64) {
                 if hit_existing {
                     referenced_by = m.set_users(kind, &name);
                 }
-                let body = gen_set_body(rng, kind);
+                let mut body = gen_set_body(rng, kind);
+                if let SetBody::Prefix(v) = &mut body {
+                    if rng.chance(1, 3) {
+                        // default-route entries (kept apart from the trie by the code under test)
+                        let (min, max) = *rng.pick(&[(0u8, 0u8), (0, 32), (8, 24), (24, 24), (0, 8), (16, 32), (1, 1)]);
+                        v.push(PfxEntry { v6: rng.chance(1, 4), addr: 0, len: 0, min, max });
+                    }
+                }
                 let which = if roll < 18 { rng.below(2) } else { 2 + rng.below(2) };
                 match which {
                     0 => {
                         opname = "add";
                         desc = format!("add_defined_set {} {} [{}]", kind.name(), name, body.texts().join(", "));
+                        target = Some(Target::Set(kind, name.clone(), vec![body.clone()]));
                         result = guard_res(|| pt.add_defined_set(body.config(&name)));
                         let b2 = body.clone();
                         model_update = Some(Box::new(move |m: &mut MTable| {
@@ -2733,6 +2875,9 @@ fn run_crud(ctx: &mut Ctx, rng: &mut Rng, histories: u64) {
                     1 => {
                         opname = "replace";
                         desc = format!("replace_defined_set {} {} [{}]", kind.name(), name, body.texts().join(", "));
+                        let mut named = vec![body.clone()];
+                        named.extend(existing.iter().map(|e| e.body.clone())); // what was replaced must be gone
+                        target = Some(Target::Set(kind, name.clone(), named));
                         result = guard_res(|| pt.replace_defined_set(body.config(&name)));
                         let b2 = body.clone();
                         model_update = Some(Box::new(move |m: &mut MTable| {
@@ -2750,11 +2895,28 @@ fn run_crud(ctx: &mut Ctx, rng: &mut Rng, histories: u64) {
                     }
                     _ => {
                         opname = "delete-elements";
-                        let rm = match &existing {
+                        let mut rm = match &existing {
                             Some(e) => body_subset(rng, &e.body, &body),
                             None => body.clone(),
                         };
+                        if let (SetBody::Prefix(rv), Some(SetBody::Prefix(ev))) = (&mut rm, existing.as_ref().map(|e| &e.body)) {
+                            // make sure default-route entries are among the removed ones often enough
+                            if let Some(z) = ev.iter().find(|e| e.len == 0) {
+                                if ev.len() > 1 && !rv.contains(z) && rng.bool() {
+                                    rv.push(z.clone());
+                                }
+                            }
+                        }
                         desc = format!("delete_defined_set {} {} all=false [{}]", kind.name(), name, rm.texts().join(", "));
+                        target = Some(Target::Set(kind, name.clone(), vec![rm.clone()]));
+                        if let (SetBody::Prefix(rv), Some(SetBody::Prefix(ev))) = (&rm, existing.as_ref().map(|e| &e.body)) {
+                            if rv.iter().any(|e| e.len == 0 && ev.contains(e)) {
+                                ctx.rep.count("crud:prefix:default-route-entry-removed");
+                            }
+                            if rv.iter().any(|e| ev.contains(e)) {
+                                ctx.rep.count("crud:prefix:entry-removed");
+                            }
+                        }
                         result = guard_res(|| pt.delete_defined_set(rm.config(&name), false));
                         model_update = Some(Box::new(move |m: &mut MTable| {
                             if let Some(e) = m.sets.get_mut(&key) {
@@ -2787,6 +2949,7 @@ fn run_crud(ctx: &mut Ctx, rng: &mut Rng, histories: u64) {
                         // reference to a set that may not exist / option the loader refuses
                         s.conds.push(Cond::Set(SetKind::Prefix, "ps1".into(), Opt::All));
                     }
+                    target = Some(Target::Stmt(name.clone()));
                     desc = format!(
                         "add_statement {} if [{}] then {} disposition={:?}",
                         name,
@@ -2850,6 +3013,7 @@ fn run_crud(ctx: &mut Ctx, rng: &mut Rng, histories: u64) {
                         }
                         None => (vec![], None, Actions::default()),
                     };
+                    target = Some(Target::Stmt(name.clone()));
                     desc = format!(
                         "delete_statement {} all=false kinds=[{}] disposition={:?} actions=[{}]",
                         name,
@@ -2900,6 +3064,7 @@ fn run_crud(ctx: &mut Ctx, rng: &mut Rng, histories: u64) {
                 if roll < 46 {
                     opname = "add";
                     desc = format!("add_policy {} {:?}", name, sn);
+                    target = Some(Target::Policy(name.clone()));
                     result = guard_res(|| pt.add_policy(&name, sn.clone()));
                     let n2 = name.clone();
                     model_update = Some(Box::new(move |m: &mut MTable| {
@@ -2910,6 +3075,10 @@ fn run_crud(ctx: &mut Ctx, rng: &mut Rng, histories: u64) {
                     let preserve = rng.bool();
                     opname = if all { "delete" } else { "delete-statements" };
                     desc = format!("delete_policy {} preserve_statements={} all={} {:?}", name, preserve, all, sn);
+                    dp_preserve = Some(preserve);
+                    if !all {
+                        target = Some(Target::Policy(name.clone()));
+                    }
                     let r = guard(|| pt.delete_policy(&name, preserve, all, sn.clone()));
                     result = match r {
                         Err(p) => Err(format!("PANIC {} {} at {}", panic_sig(&p), p.message, p.location)),
@@ -3061,9 +3230,21 @@ fn run_crud(ctx: &mut Ctx, rng: &mut Rng, histories: u64) {
                     break 'hist;
                 }
             }
+            let m_before = if dp_preserve.is_some() { Some(m.clone()) } else { None };
             if ok {
                 if let Some(f) = model_update.take() {
                     f(&mut m);
+                }
+            }
+            // content check: what the accepted operation created or changed is evaluated at once
+            let mut probe_cleanup_ran = false;
+            if ok {
+                if let Some(t) = &target {
+                    probe_cleanup_ran = !matches!(t, Target::Policy(_));
+                    let label = format!("{}/{}", entity, opname);
+                    if probe_entity(ctx, rng, &mut pt, &m, t, &probes, &ops, &label) {
+                        break 'hist;
+                    }
                 }
             }
             if let Some((imp, exp)) = new_global {
@@ -3087,7 +3268,43 @@ fn run_crud(ctx: &mut Ctx, rng: &mut Rng, histories: u64) {
             let ms: BTreeSet<(SetKind, String)> = m.sets.keys().cloned().collect();
             let mst: BTreeSet<String> = m.stmts.keys().cloned().collect();
             let mp: BTreeSet<String> = m.pols.keys().cloned().collect();
-            if rs != ms || rst != mst || rp != mp {
+            let mut names_ok = rs == ms && rst == mst && rp == mp;
+            if !names_ok && rs == ms && rp == mp && ok {
+                // only statements differ: the business of delete_policy's preserve_statements
+                let missing: Vec<String> = mst.difference(&rst).cloned().collect();
+                let extra: Vec<String> = rst.difference(&mst).cloned().collect();
+                let preserve_true_ran = dp_preserve == Some(true) || probe_cleanup_ran;
+                if let Some(sname) = missing.first() {
+                    if let Some(user) = m.stmt_users(sname) {
+                        ctx.rep.violation(
+                            "C14/integrity/statement/deleted-with-policy",
+                            &format!("deleting a policy removed statement {} although {} still references it", sname, user),
+                            Json::obj(vec![("ops", Json::strs(ops.clone())), ("statement", Json::s(sname.clone()))]),
+                        );
+                        break 'hist;
+                    } else if preserve_true_ran {
+                        ctx.rep.violation(
+                            "C14/crud/policy/delete/preserve-statements-ignored",
+                            &format!("delete_policy with preserve_statements=true deleted statement {}", sname),
+                            Json::obj(vec![("ops", Json::strs(ops.clone())), ("statement", Json::s(sname.clone()))]),
+                        );
+                        break 'hist;
+                    }
+                } else if dp_preserve == Some(false) && !extra.is_empty() {
+                    // statements of the deleted policy that nothing references were kept although
+                    // preserve_statements=false: harmless for every user, not judged; follow the code
+                    ctx.rep.count("unjudged:delete-policy-kept-unreferenced-statements");
+                    if let Some(mb) = &m_before {
+                        for sname in &extra {
+                            if let Some(st) = mb.stmts.get(sname) {
+                                m.stmts.insert(sname.clone(), st.clone());
+                            }
+                        }
+                    }
+                    names_ok = rst == m.stmts.keys().cloned().collect::<BTreeSet<String>>();
+                }
+            }
+            if !names_ok {
                 ctx.rep.count(&format!("unjudged:model-drift:{}:{}", entity, opname));
                 if ctx.rep.counters.get(&format!("unjudged:model-drift:{}:{}", entity, opname)) == Some(&1) {
                     eprintln!("[C14] model drift after: {:?}\n real sets={:?} stmts={:?} pols={:?}\n model sets={:?} stmts={:?} pols={:?}", ops, rs, rst, rp, ms, mst, mp);
@@ -3161,7 +3378,7 @@ fn main() {
     let mut rep = Report::new("C14", &params);
     rep.extra("rule", Json::s(rule));
     rep.max_samples = 3;
-    let mut ctx = Ctx { rep, w: make_world() };
+    let mut ctx = Ctx { rep, w: make_world(), fallback_sig: None };
     let mut rng = Rng::new(params.seed ^ 0xC14);
     let part = params.get("part").unwrap_or("all").to_string();
     if part == "all" || part == "unit" {
